@@ -153,6 +153,12 @@ class Check:
         extra = len([1 for v in self.violations if v[2] is None])
         if extra:
             print("  (+%d further violating cases not written)" % extra)
+        if self.violations:
+            counts = {}
+            for sig, what, path in self.violations:
+                counts.setdefault(sig, [0, what])[0] += 1
+            for sig, (n, what) in sorted(counts.items()):
+                print("  violations by signature: %s x%d  e.g. %s" % (sig, n, what[:160]))
         print("%s %s: states=%d transitions=%d cases=%d distinct=%d traces=%d violations=%d wall=%.1fs"
               % (self.pid, self.tier, self.states, self.transitions, self.evaluations, len(self._distinct),
                  self.traces, len(self.violations), wall))
